@@ -269,6 +269,26 @@ theorem copy_adds_one (s : St) (i c : Nat) (v : Val) (hinv : Inv s) (hl : lookup
   simp only [step, copyMoc, hl, hne, ↓reduceIte]
   rw [lookup_set_occ s i (c + 1) v s.next hlt i]; simp
 
+/-- **Lock discipline**: whatever the state and the call, its lock sections never nest (a thread
+    never requests the lock while holding it — with a single lock this is what excludes a thread
+    waiting for itself or for a writer queued behind its own read section) and every section is
+    closed when the call returns. -/
+theorem lock_discipline (s : St) (c : Call) : Disciplined (lockTrace s c) := by
+  have h2 : Disciplined [LockEv.wAcq, LockEv.wRel] := by decide
+  have h3 : Disciplined [LockEv.rAcq, LockEv.rRel] := by decide
+  have h4 : Disciplined [LockEv.rAcq, LockEv.rRel, LockEv.wAcq, LockEv.wRel] := by decide
+  cases c with
+  | add v => exact h2
+  | copy i => exact h2
+  | drop i => exact h2
+  | get i => exact h3
+  | op1 f i => simp only [lockTrace]; cases readPhase s (.op1 f i) <;> assumption
+  | op2 f i j => simp only [lockTrace]; cases readPhase s (.op2 f i j) <;> assumption
+  | opn f is => simp only [lockTrace]; cases readPhase s (.opn f is) <;> assumption
+
+/-- A nested read section (what a re-entrant helper would produce) is NOT disciplined. -/
+example : ¬ Disciplined [.rAcq, .rAcq, .rRel, .rRel] := by decide
+
 /-! ### Concurrency: interleaved lock sections -/
 
 /-- **The two-phase operation is atomic**: if the operands still denote the same values when the
